@@ -348,6 +348,15 @@ def rules(ctx):
     # from one call to the next): nothing may be drawn inside a job (same rule as C07.R3)
     from .c07 import r3_job_effects
     r3_job_effects(ctx, rid="C11.R11", title="nothing is drawn inside the per-subject jobs (worker processes are not seeded by run())")
+    # "the same seeded call repeated gives the same answer": no call rewrites, in place, a tensor it read from the model (parameters, state
+    # values, and their numpy views) - the second call would start from other parameters (same rule as C13.R6)
+    from ._shared import inplace_on_state_values
+    ctx.rule("C11.R12", "no in-place write into a tensor obtained from the model's parameters / state (a repeated seeded call would see other values)", 8)
+    sites, holders = inplace_on_state_values(ctx)
+    for fn, node, desc in sites:
+        ctx.violation("C11.R12", fn, node, desc + ": the model is not the same after the call, so the identical seeded call repeated gives another result")
+    for fn, names in holders:
+        ctx.ok("C11.R12", fn, fn.node, f"locals aliasing model values {names}: never written in place", construct=f"def {fn.name}")
     st = cg.stats()
     ctx.extra["call_sites"] = st
     ctx.trust("effect tables for torch / numpy / random / scipy.stats draws (sa/effects.py); joblib / matplotlib do not draw from the seeded generators")
